@@ -40,6 +40,8 @@ def cases(tier, seed, phase):
             yield {'side': 'pipe', 'per_recipient': per, 'rep': rep}
         yield {'side': 'http', 'what': 'no-response', 'rep': rep}
         yield {'side': 'http', 'what': 'partial-response', 'rep': rep}
+        yield {'side': 'http', 'what': 'reuse-unfinished-body', 'rep': rep}
+        yield {'side': 'http', 'what': 'reuse-second-unanswered', 'rep': rep}
 
 
 def ms(x):
@@ -503,7 +505,83 @@ def run_pipe(case, model):
     return CaseResult(mismatch, hits, ('pipe', case['per_recipient'], case['rep']), ['pipe'])
 
 
+def run_http_reuse(case, model):
+    """A kept-alive connection: the first delivery is answered at once (in one variant its announced body never ends), the second
+    delivery over the same connection is not answered. Each attempt must end within the single configured timeout."""
+    import gevent
+    from gevent.server import StreamServer
+    from slimta.relay.http import HttpRelay
+    from slimta.relay import TransientRelayError, RelayError
+    from slimta.envelope import Envelope
+    unfinished = case['what'] == 'reuse-unfinished-body'
+
+    def handler(sock, addr):
+        try:
+            f = sock.makefile('rb')
+            clen = 0
+            while True:
+                l = f.readline()
+                if not l or l in (b'\r\n', b'\n'):
+                    break
+                if l.lower().startswith(b'content-length:'):
+                    clen = int(l.split(b':')[1])
+            f.read(clen)
+            body = b'ok\n'
+            sock.sendall(b'HTTP/1.1 200 OK\r\nContent-Length: %d\r\nX-Smtp-Reply: 250; message="2.6.0 ok"\r\n\r\n' % (100 if unfinished else len(body)) + body)
+            gevent.sleep(30)       # the connection stays open; nothing more is ever sent
+        except OSError:
+            pass
+        finally:
+            sock.close()
+    srv = StreamServer(('127.0.0.1', 0), handler)
+    srv.start()
+    relay = HttpRelay('http://127.0.0.1:%d/' % srv.server_port, timeout=CMD_T, idle_timeout=5.0, ehlo_as='relay.example')
+    total, ending = model_expect(model, 'http', ['single:inf'])
+    expect = int(ending.split(':')[2]) / 1000.0
+    hits = []
+    mismatch = None
+    try:
+        for n in (1, 2):
+            env = Envelope('s@example.com', ['a@example.com'])
+            env.parse(b'Subject: x\r\n\r\nbody\r\n')
+            box = {}
+            t0 = time.time()
+
+            def go():
+                try:
+                    box['ret'] = relay.attempt(env, 0)
+                except RelayError as e:
+                    box['exc'] = e
+                except BaseException as e:
+                    box['other'] = e
+                box['t'] = time.time()
+            g = gevent.spawn(go)
+            g.join(WATCHDOG)
+            if not g.ready():
+                g.kill(block=False)
+                hits.append(hit('c14.http-attempt-still-blocked.%s.attempt%d' % (case['what'], n), 'the HTTP relay attempt is still blocked',
+                                observed={'waited_s': WATCHDOG}))
+                mismatch = {'op': 'timeouts http', 'impl': 'blocked', 'model': ending}
+                break
+            elapsed = box['t'] - t0
+            if elapsed > expect + SLACK:
+                hits.append(hit('c14.http-attempt-duration', 'the HTTP attempt did not end within its timeout', observed={'attempt': n, 'elapsed': round(elapsed, 3)}, expected=expect))
+                break
+            if 'other' in box:
+                hits.append(hit('c14.http-not-a-relay-result', 'the HTTP attempt ended with something other than a result or a relay error', observed=repr(box['other'])[:200]))
+                break
+            if n == 2 and 'exc' in box and not isinstance(box['exc'], TransientRelayError):
+                hits.append(hit('c14.http-timeout-not-transient', 'a server that does not answer must give a transient failure', observed=str(box)[:200]))
+    finally:
+        srv.stop()
+        for c in list(relay.pool):
+            c.kill(block=False)
+    return CaseResult(mismatch, hits, ('http', case['what'], case['rep']), ['http', 'http-reuse'])
+
+
 def run_http(case, model):
+    if case['what'].startswith('reuse-'):
+        return run_http_reuse(case, model)
     import gevent
     from gevent.server import StreamServer
     from slimta.relay.http import HttpRelay
